@@ -1,1 +1,39 @@
-Require Import Base Recipe.
+(* C08 -- Baking a recipe equals performing its steps eagerly, in order. *)
+Require Import Base Units Contents Container Dilute Solve Plate Prog Recipe RecipeThm.
+
+(* bake is the eager fold over the current table -- for programs of any length, any interleaving over shared objects.
+   The one departure of the implementation (fill_to on a plate region, known finding D13) is excluded by the guard and
+   shown to be a real difference by C08_fill_slice_refuted *)
+Theorem C08_bake_eq_eager : forall cf objs steps,
+  forallb no_plate_fill steps = true -> bake cf objs steps = eager cf objs steps.
+Proof. exact bake_eq_eager. Qed.
+Print Assumptions C08_bake_eq_eager.
+Theorem C08_fill_slice_refuted :
+  let w := {| sid := 1; knd := Liquid; mw := 18; dens := 1; act := 1 |} in
+  let p := {| pname := 1; nrows := 1; ncols := 2; wells := [ {| cname := 0; cont := []; vol := 0; maxv := Some 100 |};
+                                                           {| cname := 1; cont := []; vol := 0; maxv := Some 100 |} ] |} in
+  let st := SFill (RP 1 (RRect [0%nat] [0%nat])) w {| qval := 20; qpfx := Pu; qbase := BL |} in
+  exists eb ee tb te, bake default_cfg [(1%nat, OP p)] [st] = Ok (eb, tb) /\ eager default_cfg [(1%nat, OP p)] [st] = Ok (ee, te) /\ eb <> ee.
+Proof. exact bake_fill_slice_refuted. Qed.
+Print Assumptions C08_fill_slice_refuted.
+
+(* each step sees the effects of all earlier steps *)
+Theorem C08_sequential : forall cf d13 s1 s2 e e' tr,
+  bake_steps cf d13 e (s1 ++ s2) = Ok (e', tr) ->
+  exists e1 tr1 tr2, bake_steps cf d13 e s1 = Ok (e1, tr1) /\ bake_steps cf d13 e1 s2 = Ok (e', tr2) /\ tr = tr1 ++ tr2.
+Proof. exact bake_sequential. Qed.
+Print Assumptions C08_sequential.
+
+(* a step changes only the objects it names; everything else in the table is untouched *)
+Theorem C08_step_frame : forall cf d13 e st e' k, bake_step cf d13 e st = Ok (e', k) -> frame_ok e e' k.
+Proof. exact bake_step_frame. Qed.
+Print Assumptions C08_step_frame.
+
+(* steps have no effect before bake; the returned dictionary has exactly the declared and recipe-created names *)
+Theorem C08_declare_no_effect : forall steps objs n o, rget n objs = Some o -> rget n (declare_steps objs steps) = Some o.
+Proof. exact declare_no_effect. Qed.
+Print Assumptions C08_declare_no_effect.
+Theorem C08_bake_keys : forall cf objs steps e' tr,
+  bake cf objs steps = Ok (e', tr) -> map fst e' = map fst objs ++ created_names steps.
+Proof. exact bake_keys. Qed.
+Print Assumptions C08_bake_keys.
